@@ -40,5 +40,14 @@ func (m Meter) validate() error {
 	if m.Num < 1 {
 		return errorx.Invalid("Meter should be positive")
 	}
+	// a MIDI time signature holds the numerator in a byte and the denominator as a power of two
+	if m.Num > 255 {
+		return errorx.Invalid("Meter numerator should be at most 255")
+	}
+	switch m.Denom {
+	case 1, 2, 4, 8, 16, 32, 64, 128:
+	default:
+		return errorx.Invalid("Meter denominator should be a power of two up to 128")
+	}
 	return nil
 }
